@@ -40,6 +40,22 @@ def parseContentLength (v : Bytes) : Option Int :=
   | some _ => none
   | none => if r.n ≠ v.length then none else some r.v
 
+/-- hasHeaderValue(v, "keep-alive"): comma-separated, spaces stripped, compared with ciEq -/
+def isSpTab (c : UInt8) : Bool := c == 32 || c == 9
+/-- stripSpace (spaces and tabs, as of "fix: honour every close token of the Connection header") -/
+def stripSp (b : Bytes) : Bytes := ((b.dropWhile isSpTab).reverse.dropWhile isSpTab).reverse
+
+def splitComma : Bytes → List Bytes
+  | [] => [[]]
+  | c :: t =>
+    if c == 44 then [] :: splitComma t
+    else match splitComma t with
+      | s :: r => (c :: s) :: r
+      | [] => [[c]]
+
+def hasHeaderValue (s value : Bytes) : Bool :=
+  if s.isEmpty then false else (splitComma s).any fun it => ciEq (stripSp it) value
+
 /-- one iteration of the `for s.next()` loop; none = the request is rejected (error + connectionClose) -/
 def stepField (noHTTP11 : Bool) (st : PState) (k v : Bytes) : Option PState :=
   if !v.all validHeaderValueByte then none
@@ -60,7 +76,7 @@ def stepField (noHTTP11 : Bool) (st : PState) (k v : Bytes) : Option PState :=
     if st.hostSeen then none else some { st with hostSeen := true, host := v }
   else if ciEq k strConnectionB then
     if v == strClose then some { st with connClose := true }
-    else some { st with connClose := false, connValue := st.connValue.orElse fun _ => some v }
+    else some { st with connClose := st.connClose || hasHeaderValue v strClose, connValue := st.connValue.orElse fun _ => some v }
   else some st
 
 def loopFields (noHTTP11 : Bool) : PState → List (Bytes × Bytes) → Option PState
@@ -69,20 +85,6 @@ def loopFields (noHTTP11 : Bool) : PState → List (Bytes × Bytes) → Option P
     match stepField noHTTP11 st k v with
     | none => none
     | some st' => loopFields noHTTP11 st' rest
-
-/-- hasHeaderValue(v, "keep-alive"): comma-separated, spaces stripped, compared with ciEq -/
-def stripSp (b : Bytes) : Bytes := ((b.dropWhile (· == 32)).reverse.dropWhile (· == 32)).reverse
-
-def splitComma : Bytes → List Bytes
-  | [] => [[]]
-  | c :: t =>
-    if c == 44 then [] :: splitComma t
-    else match splitComma t with
-      | s :: r => (c :: s) :: r
-      | [] => [[c]]
-
-def hasHeaderValue (s value : Bytes) : Bool :=
-  if s.isEmpty then false else (splitComma s).any fun it => ciEq (stripSp it) value
 
 inductive FDec
   | reject
